@@ -48,10 +48,21 @@ def run(ctx):
         "avc/avcdecoderconfigurationrecord.go, avc/mime.go over a reader interface; instance ER = the C13 model of "
         "bits.EBSPReader, instance BR = ideal bit-list reader used in the proofs",
         "generator of field values: ocaml/c15_driver.ml (splitmix64), screened by the extracted validity predicates",
+        "HEVC spec: coq/c15/C15HevcSpec.v, C15HevcConfSpec.v — serialisers written by hand from ISO/IEC 23008-2 7.3.1.2, 7.3.2.2, "
+        "7.3.2.3, 7.3.3, 7.3.4, 7.3.6.1, 7.3.7, E.2 (+ the (7-61)/(7-62) derivation of inter-predicted reference picture sets, "
+        "NumPicTotalCurr (7-55), PicSizeInCtbsY, the conformance-window cropping) and the HEVCDecoderConfigurationRecord / codecs "
+        "parameter of ISO/IEC 14496-15 8.3.3.1.2 / E.3",
+        "HEVC model: coq/c15/C15HevcModel.v, C15HevcConfModel.v — hand transcription of hevc/sps.go, hevc/pps.go, hevc/slice.go, "
+        "hevc/hevcdecoderconfigurationrecord.go (Create/Size/Encode; the decoder is the C16 model C16ConfRecModel.v), hevc/mime.go; "
+        "NOT modelled: the PPS multilayer and 3D extensions (parseMultilayerExtension with the colour mapping octants, "
+        "parse3dExtension) - such NAL units are outside the correspondence; the VPS parser",
     ]
     ctx.assumptions += [
         "ue(v) values are below 2^32-1 and se(v) values within int32 (the standard's ranges); beyond that the Go reader wraps at 64 bits",
         "the reader is a bytes.Reader / bytes.Buffer over the whole NAL unit (EOF is the only error)",
+        "HEVC: single-layer streams (nuh_layer_id is coded but no inter-layer syntax), pred_weight_table entries are all coded "
+        "(the pic_layer_id / PicOrderCnt condition of 7.3.6.3 is true, as in the Go parser); an st_ref_pic_set never predicts an "
+        "entry with dPoc = 0 (the current picture)",
     ]
     exe, model = build(ctx)
     pr = ctx.proofs("c15", "C15Theorems.v")
@@ -60,7 +71,7 @@ def run(ctx):
     d = os.path.join(common.BUILD, "c15")
     os.makedirs(d, exist_ok=True)
     # generation by the model side
-    n = ctx.n(2500, 150000)
+    n = ctx.n(2500, 50000)
     rc, gen, e = sh2("ulimit -s unlimited 2>/dev/null; exec '%s'" % model,
                      stdin=("GEN\t%d\t%d\n" % (ctx.seed, n)).encode(), timeout=3000)
     if rc != 0:
